@@ -15,9 +15,15 @@ theorem noIdsL_fragment : ∀ (rows : List CRow), (∀ c ∈ rows, rowOk c = tru
   | nil => intro _; rfl
   | cons c l ih =>
     intro h
-    have hc := rowFacts c (h c (by simp))
+    have hu : c.row.nodeUuid = [] := by
+      have := h c (by simp)
+      simp only [rowOk, Bool.or_eq_true] at this
+      rcases this with (h1 | h1) | h1
+      · exact (rowFacts c h1).nouid
+      · simp only [exitRow, Bool.and_eq_true, List.isEmpty_iff] at h1; exact h1.2
+      · simp only [gotoRow, Bool.and_eq_true, List.isEmpty_iff] at h1; exact h1.2
     simp only [List.map_cons, noIdsL, toEvent, Event.noIds, Bool.and_eq_true]
-    exact ⟨by rw [hc.nouid]; rfl, ih (fun c' hc' => h c' (by simp [hc']))⟩
+    exact ⟨by rw [hu]; rfl, ih (fun c' hc' => h c' (by simp [hc']))⟩
 
 theorem pass1_state {rows : List RRow} {out : List OutEdge} (h : pass1 rows = .ok out) :
     ∃ st : P1, (rows.zipIdx 0).foldlM (fun st (p : RRow × Nat) => pass1Row st p.2 p.1) {} = .ok st ∧
@@ -63,6 +69,210 @@ theorem type_not_wait {t : Str} (h : kindOf t = .splitValue ∨ kindOf t = .spli
     t ≠ "wait_for_response".toList := by
   intro e; rw [e, kindOf_wait] at h; rcases h with h | h <;> cases h
 
+theorem forall2_map_eq_mem {α β γ} {R : α → β → Prop} {f : α → γ} {g : β → γ} {l1 : List α} {l2 : List β}
+    (h : List.Forall₂ R l1 l2) (hfg : ∀ a b, b ∈ l2 → R a b → f a = g b) : l1.map f = l2.map g := by
+  induction h with
+  | nil => rfl
+  | cons hab _ ih =>
+    simp only [List.map_cons]
+    rw [hfg _ _ (by simp) hab, ih (fun a b hb => hfg a b (by simp [hb]))]
+
+/-- one node: the reference node of row `j` and the compiled node have the same abstraction, given
+that destinations resolve alike (`dm`) -/
+theorem node_abs_eq (rnf : Bool) (F r : Flow) (M : Maps) (ns : Array NodeM) (j : Nat) (n : NodeM) (c : CRow)
+    (es : List OutEdge) (hsim : NodeSim M ns n c es) (hfc : nodeRowOk c = true)
+    (rows : List CRow) (hcj : rows[j]? = some c) (hok : ∀ e ∈ es, edgeOk rows e = true ∧ e.src = j)
+    (hfn0 : n.fids.Nodup)
+    (dm : ∀ (d : Dest) (t : Option Target), (∀ k, t = some (Target.row k) → ∃ e ∈ es, e.tgt = Target.row k) →
+      DestIs M ns d t → destIdx F (renderDest d) = destIdx r (t.bind tgtDest)) :
+    absNode ⟨false, rnf⟩ r (mkNode j (toRRow c) es) = absNode ⟨false, rnf⟩ F (renderNode n) := by
+  have hlast : ∀ (l : List OutEdge), (∀ e ∈ l, e ∈ es) → ∀ k, (l.getLast?).map (·.tgt) = some (Target.row k) →
+      ∃ e ∈ es, e.tgt = Target.row k := by
+    intro l hl k hk
+    cases hg : l.getLast? with
+    | none => rw [hg] at hk; cases hk
+    | some e =>
+      rw [hg] at hk
+      simp only [Option.map_some, Option.some.injEq] at hk
+      exact ⟨e, hl e (List.mem_of_getLast? hg), hk⟩
+  have hfil : ∀ (p : OutEdge → Bool) (l : List OutEdge), (∀ e ∈ l, e ∈ es) → ∀ e ∈ l.filter p, e ∈ es :=
+    fun p l hl e he => hl e (List.mem_filter.mp he).1
+  have hall : ∀ e ∈ es, e ∈ es := fun e he => he
+  cases hsim with
+  | plain hk hp =>
+    -- an action row: all its out-edges are unconditional
+    have hbl : ∀ e ∈ es, e.cond.blank = true := by
+      intro e he
+      obtain ⟨this, hsrc⟩ := hok e he
+      simp only [edgeOk, hsrc, hcj, Option.map_some, hk, Bool.or_eq_true] at this
+      rcases this with h1 | h1
+      · exact h1
+      · cases h1
+    have hact : (toRRow c).act = c.row.action := by
+      simp only [nodeRowOk, Bool.or_eq_true] at hfc
+      rcases hfc with h1 | h1
+      · simp only [plainActionRow, Bool.and_eq_true, decide_eq_true_eq] at h1
+        exact h1.2.symm
+      · simp only [switchRow, Bool.and_eq_true] at h1
+        have := switch_type h1.1.1.1
+        rcases kindOf_switch this with h2 | h2 | h2 <;> rw [hk] at h2 <;> cases h2
+    rw [mkNode_plain j (toRRow c) (es) hk hbl, absNode_plain_ref,
+      absNode_plain_cmp _ _ n c.row.action hp.router hp.acts, hact]
+    congr 2
+    rw [dm _ _ (hlast es hall) hp.dest]
+    cases (es).getLast? <;> rfl
+  | sw rr hk hp =>
+    have hact : (toRRow c).act = none := by
+      simp only [nodeRowOk, Bool.or_eq_true] at hfc
+      rcases hfc with h1 | h1
+      · simp only [plainActionRow, Bool.and_eq_true, Bool.not_eq_true'] at h1
+        have := kindOf_action h1.1.1.1
+        rcases hk with h2 | h2 | h2 <;> rw [this] at h2 <;> cases h2
+      · simp only [switchRow, Bool.and_eq_true, Option.isNone_iff_eq_none] at h1
+        exact h1.2
+    -- identifiers of the compiled router are pairwise different
+    have hfn := hfn0
+    have hrids : rr.ids.Nodup := by
+      unfold NodeM.fids NodeM.innerIds NodeM.tailIds at hfn
+      rw [hp.router] at hfn
+      exact (List.nodup_append.mp (List.nodup_append.mp hfn).2.1).2.1
+    have hex : (rr.allCats.map (·.exitUid)).Nodup := by
+      unfold SwitchR.ids at hrids; exact (List.nodup_append.mp hrids).1
+    have hcu : (rr.allCats.map (·.uid)).Nodup := by
+      unfold SwitchR.ids at hrids
+      exact (List.nodup_append.mp (List.nodup_append.mp hrids).2.1).1
+    rw [mkNode_switch j (toRRow c) (es) hk hact, absNode_mkSwitch,
+      absNode_sw rnf _ n rr hp.router hp.acts hcu hex hp.casecat hp.nrSome]
+    -- compare field by field
+    have htests : (rr.cases.map renderCase).map (fun k => (k.type, testArgs k)) =
+        (refTests (toRRow c).kind (es)).map (fun t =>
+          (t.1, if t.1 = "has_group".toList then t.2.1.drop 1 else t.2.1)) := by
+      have e1 : (rr.cases.map renderCase).map (fun k => (k.type, testArgs k)) =
+          (rr.cases.map (fun k => (k.type, k.args.map (·.getD [])))).map
+            (fun (p : Str × List Str) => (p.1, if p.1 = "has_group".toList then p.2.drop 1 else p.2)) := by
+        rw [List.map_map, List.map_map]
+        exact List.map_congr_left (fun k _ => rfl)
+      rw [e1, hp.cases, List.map_map]
+      unfold refTests
+      rw [List.map_map]
+      exact List.map_congr_left (fun e _ => rfl)
+    have hwait : (renderWait rr).map (fun o => o.map (·.1)) =
+        (refWait (toRRow c) (es)).map (fun o => o.map (·.1)) := by
+      unfold refWait renderWait
+      rcases hk with h1 | h1
+      · -- a wait row
+        have ht := type_of_wait h1
+        have hw : rr.wait = some (timeoutOf c.row) := by rw [hp.wait]; unfold waitOf; rw [if_pos ht]
+        have hk' : (toRRow c).kind = .wait := h1
+        have hto : (toRRow c).timeout = timeoutOf c.row := rfl
+        rw [if_pos hk', hto, hw]
+        cases hto2 : timeoutOf c.row with
+        | zero => simp
+        | succ m =>
+          have : rr.noResp.isSome = true := hp.nrSome.mpr ⟨m, by rw [hw, hto2]⟩
+          cases hnn : rr.noResp with
+          | none => rw [hnn] at this; cases this
+          | some nr => simp
+      · have ht := type_not_wait h1
+        have hw : rr.wait = none := by rw [hp.wait]; unfold waitOf; rw [if_neg ht]
+        have hk' : ¬ ((toRRow c).kind = .wait) := by
+          show ¬ (kindOf c.row.type = .wait)
+          rcases h1 with h1 | h1 <;> rw [h1] <;> decide
+        rw [if_neg hk', hw]
+        rfl
+    have hdests : rr.allCats.map (fun cat => destIdx F (renderDest cat.dest)) =
+        ((refTests (toRRow c).kind (es)).map (fun t => destIdx r t.2.2)) ++
+          [destIdx r (lastTgt ((es).filter (·.cond.blank)) (fun _ => true))] ++
+          (match refWait (toRRow c) (es) with
+           | some (some (_, td)) => [destIdx r td]
+           | _ => []) := by
+      simp only [SwitchR.allCats, List.map_append, List.map_cons, List.map_nil]
+      congr 1
+      · congr 1
+        · -- the categories of the tests
+          unfold refTests
+          rw [List.map_map]
+          refine forall2_map_eq_mem hp.catd ?_
+          intro cat e he hd
+          refine dm _ _ ?_ hd
+          intro k hk
+          simp only [Option.some.injEq] at hk
+          have : e ∈ es := by unfold testsOf at he; exact hfil _ _ (hfil _ _ hall) e he
+          exact ⟨e, this, hk⟩
+        · -- the default category
+          rw [dm _ _ (hlast _ (hfil _ _ hall)) hp.dflt, lastTgt_eq, List.filter_true]
+      · -- the timeout category
+        unfold refWait
+        rcases hk with h1 | h1
+        · have ht := type_of_wait h1
+          have hw : rr.wait = some (timeoutOf c.row) := by rw [hp.wait]; unfold waitOf; rw [if_pos ht]
+          have hk' : (toRRow c).kind = .wait := h1
+          have hto : (toRRow c).timeout = timeoutOf c.row := rfl
+          rw [if_pos hk', hto]
+          cases hto2 : timeoutOf c.row with
+          | zero =>
+            have : rr.noResp = none := by
+              cases hnn : rr.noResp with
+              | none => rfl
+              | some nr =>
+                obtain ⟨m, hm⟩ := hp.nrSome.mp (by simp [hnn])
+                rw [hw, hto2] at hm; cases hm
+            simp [this]
+          | succ m =>
+            have : rr.noResp.isSome = true := hp.nrSome.mpr ⟨m, by rw [hw, hto2]⟩
+            cases hnn : rr.noResp with
+            | none => rw [hnn] at this; cases this
+            | some nr =>
+              simp only [Option.toList, List.map_cons, List.map_nil, Nat.succ_ne_zero, if_false]
+              rw [dm _ _ (hlast _ (hfil _ _ (hfil _ _ hall))) (hp.nr nr hnn), lastTgt_eq]
+        · have ht := type_not_wait h1
+          have hw : rr.wait = none := by rw [hp.wait]; unfold waitOf; rw [if_neg ht]
+          have hk' : ¬ ((toRRow c).kind = .wait) := by
+            show ¬ (kindOf c.row.type = .wait)
+            rcases h1 with h1 | h1 <;> rw [h1] <;> decide
+          rw [if_neg hk']
+          have : rr.noResp = none := by
+            cases hnn : rr.noResp with
+            | none => rfl
+            | some nr =>
+              obtain ⟨m, hm⟩ := hp.nrSome.mp (by simp [hnn])
+              rw [hw] at hm; cases hm
+          simp [this]
+    have hop : rr.operand = (toRRow c).operand := hp.operand
+    have hrn' : rr.resultName = some (toRRow c).saveName := hp.rname
+    rw [htests, hwait, hdests, hop, hrn']
+    rfl
+
+theorem zipIdx_filterMap {α β} (F : α → Nat → Option β) : ∀ (l : List α) (k : Nat),
+    (l.zipIdx k).filterMap (fun p => F p.1 p.2) =
+      (List.range' k l.length).filterMap (fun j => (l[j - k]?).bind (fun x => F x j)) := by
+  intro l
+  induction l with
+  | nil => intro k; simp
+  | cons a l ih =>
+    intro k
+    simp only [List.zipIdx_cons, List.filterMap_cons, List.length_cons, List.range'_succ, Nat.sub_self,
+      List.getElem?_cons_zero, Option.bind_some]
+    rw [ih (k + 1)]
+    have : (List.range' (k + 1) l.length).filterMap (fun j => ((a :: l)[j - k]?).bind (fun x => F x j)) =
+        (List.range' (k + 1) l.length).filterMap (fun j => (l[j - (k + 1)]?).bind (fun x => F x j)) := by
+      apply List.filterMap_congr
+      intro j hj
+      have hjk : k + 1 ≤ j := (List.mem_range'_1.mp hj).1
+      have : j - k = (j - (k + 1)) + 1 := by omega
+      rw [this, List.getElem?_cons_succ]
+    rw [this]
+
+theorem filterMap_length_congr {α β γ} (L : List α) (f : α → Option β) (g : α → Option γ)
+    (h : ∀ x ∈ L, (f x).isSome = (g x).isSome) : (L.filterMap f).length = (L.filterMap g).length := by
+  induction L with
+  | nil => rfl
+  | cons x L ih =>
+    have hx := h x (by simp)
+    have ih' := ih (fun y hy => h y (by simp [hy]))
+    simp only [List.filterMap_cons]
+    cases hf : f x <;> cases hg : g x <;> simp [hf, hg] at hx ⊢ <;> exact ih'
+
 /-- **the compiled flow and the reference flow of a sheet of the fragment have the same
 index-resolved abstraction** -/
 theorem fragment_abs (rnf : Bool) (testTypes : List Str) (rows : List CRow) (out : Out) (r : Flow)
@@ -74,11 +284,12 @@ theorem fragment_abs (rnf : Bool) (testTypes : List Str) (rows : List CRow) (out
   obtain ⟨outE, hp1, hrn⟩ := refFlow_nodes _ _ hr
   obtain ⟨hfr, hgood⟩ := good_of_fragment rows outE hf hp1
   obtain ⟨st, hfold, hoe⟩ := pass1_state hp1
-  have hrel := wp_of_run (rows_sim rows outE hgood rows 0 (fun i c hi => by simpa using hi) hfr _ {} st
-    (rel_init rows _ testTypes rfl) hfold (by rw [hoe])) hrun
+  obtain ⟨M, hrel⟩ := wp_of_run (rows_sim rows outE hgood rows 0 (fun i c hi => by simpa using hi) hfr
+    ⟨fun _ => 0, fun _ => none⟩ _ {} st (rel_init rows _ (fun _ => rfl) _ testTypes rfl) hfold (by rw [hoe])) hrun
   simp only [Nat.zero_add] at hrel
-  -- the compiled nodes
-  have hon : out.nodes = s.nodes.toList := by rw [ho]; exact out_nodes_rel hrel
+  -- the compiled nodes, per row
+  have hon : out.nodes = (List.range rows.length).filterMap
+      (fun j => (nodeIdx rows M j).bind (fun i => s.nodes[i]?)) := by rw [ho]; exact out_nodes_rel hrel
   -- their identifiers are pairwise different
   have hids := noIdsL_fragment rows hfr
   have a := final_ainv ⟨True, True⟩ ⟨fun _ => okIdsL_of_noIdsL _ hids, fun _ => hids⟩ hrun
@@ -87,18 +298,50 @@ theorem fragment_abs (rnf : Bool) (testTypes : List Str) (rows : List CRow) (out
     have := uids_nodup_of_invented hI (a.inv trivial) _ (emit_nodup (final_binv hrun) hl)
     rw [← ho] at this
     simpa [renderOut, List.map_map, Function.comp_def, renderNode] using this
-  -- the reference nodes
-  have hkinds : ∀ rr ∈ rows.map toRRow, rr.kind.isNode = true := by
-    intro rr hrr
-    simp only [List.mem_map] at hrr
-    obtain ⟨c, hc', rfl⟩ := hrr
-    rcases (rowFacts c (hfr c hc')).kind with h | h | h | h <;>
-      (show (kindOf c.row.type).isNode = true; rw [h]; rfl)
   have hRU : (r.nodes.map (·.uuid)).Nodup := (refFlow_closed _ _ hr).1
+  -- the reference nodes, per row
+  have hrn2 : r.nodes = (List.range rows.length).filterMap (fun j => (rows[j]?).bind (fun c =>
+      if isNodeRow c then some (mkNode j (toRRow c) (outE.filter (·.src = j))) else none)) := by
+    rw [hrn]
+    unfold refNodes
+    have := zipIdx_filterMap (fun (rr : RRow) (k : Nat) =>
+      if rr.kind.isNode then some (mkNode k rr (outE.filter (·.src = k))) else none) (rows.map toRRow) 0
+    simp only [List.length_map, Nat.sub_zero] at this
+    rw [← List.range_eq_range'] at this
+    rw [this]
+    apply List.filterMap_congr
+    intro j _
+    simp only [List.getElem?_map]
+    cases rows[j]? <;> rfl
+  -- the two per-row functions
+  obtain ⟨fR, hfR⟩ : ∃ fR : Nat → Option Node, fR = fun j => (rows[j]?).bind (fun c =>
+      if isNodeRow c then some (mkNode j (toRRow c) (outE.filter (·.src = j))) else none) := ⟨_, rfl⟩
+  obtain ⟨fC, hfC⟩ : ∃ fC : Nat → Option Node, fC = fun j =>
+      ((nodeIdx rows M j).bind (fun i => s.nodes[i]?)).map renderNode := ⟨_, rfl⟩
+  have hFn : (renderOut out).nodes = (List.range rows.length).filterMap fC := by
+    rw [hfC]; simp only [renderOut, hon, List.map_filterMap]
+  rw [← hfR] at hrn2
+  -- what each function gives on a node row
+  have hnodeC : ∀ j c, rows[j]? = some c → isNodeRow c = true →
+      ∃ n, s.nodes[M.nOf j]? = some n ∧ fC j = some (renderNode n) ∧ NodeSim M s.nodes n c (outOf st j) := by
+    intro j c hcj hn
+    have hj : j < rows.length := (List.getElem?_eq_some_iff.mp hcj).1
+    obtain ⟨n, hn', hsim⟩ := hrel.node j c ⟨.inl hj, hcj, hn⟩
+    exact ⟨n, hn', by rw [hfC]; simp [nodeIdx, hcj, hn, hn'], hsim⟩
+  have hsome : ∀ j ∈ List.range rows.length, (fR j).isSome = (fC j).isSome := by
+    intro j hj
+    obtain ⟨c, hcj⟩ : ∃ c, rows[j]? = some c := ⟨rows[j]'(List.mem_range.mp hj), by simp [List.mem_range.mp hj]⟩
+    by_cases hn : isNodeRow c = true
+    · obtain ⟨n, _, hfc, _⟩ := hnodeC j c hcj hn
+      rw [hfc, hfR]; simp [hcj, hn]
+    · have hn' : isNodeRow c = false := by simpa using hn
+      rw [hfR, hfC]; simp [hcj, hn', nodeIdx]
   -- a destination of the compiled flow and the target it stands for resolve to the same index
-  have dest_match : ∀ (d : Dest) (t : Option Target), DestIs s.nodes d t →
+  have htgts := pass1_targets _ _ hp1
+  have dest_match : ∀ (d : Dest) (t : Option Target),
+      (∀ k, t = some (Target.row k) → ∃ e ∈ outE, e.tgt = Target.row k) → DestIs M s.nodes d t →
       destIdx (renderOut out) (renderDest d) = destIdx r (t.bind tgtDest) := by
-    intro d t hd
+    intro d t hv hd
     cases t with
     | none => simp only [DestIs] at hd; simp [hd, renderDest, destIdx]
     | some t =>
@@ -108,180 +351,76 @@ theorem fragment_abs (rnf : Bool) (testTypes : List Str) (rows : List CRow) (out
         rcases hd with hd | hd <;> simp [hd, renderDest, destIdx, tgtDest]
       | row t =>
         obtain ⟨m, hm, hdm⟩ := hd
-        have htl : t < rows.length := by
-          have := (Array.getElem?_eq_some_iff.mp hm).1
-          rw [hrel.nsize] at this; exact this
-        have hF : findNode (renderOut out) m.uid = some t :=
-          findNode_unique _ t m.uid (renderNode m) (by simp [renderOut, hon, hm]) rfl hU
-        obtain ⟨ct, hct⟩ : ∃ ct, rows[t]? = some ct := ⟨rows[t], by simp [htl]⟩
-        have hR : findNode r (nodeId t) = some t :=
-          findNode_unique r t (nodeId t) (mkNode t (toRRow ct) (outE.filter (·.src = t))) (by
-            rw [hrn, refNodes_getElem? _ _ hkinds]
-            simp [hct]) (mkNode_uuid _ _ _) hRU
-        simp [hdm, renderDest, destIdx, tgtDest, hF, hR]
+        obtain ⟨e, he, het⟩ := hv t rfl
+        have hnode := htgts e he
+        rw [het] at hnode
+        obtain ⟨rr, hrr, hrk⟩ := hnode
+        simp only [List.getElem?_map] at hrr
+        cases hct : rows[t]? with
+        | none => rw [hct] at hrr; cases hrr
+        | some ct =>
+          rw [hct] at hrr
+          simp only [Option.map_some, Option.some.injEq] at hrr
+          have hnt : isNodeRow ct = true := by rw [← hrr] at hrk; exact hrk
+          have htl : t < rows.length := (List.getElem?_eq_some_iff.mp hct).1
+          obtain ⟨n, hn', hfc, _⟩ := hnodeC t ct hct hnt
+          rw [hm] at hn'; injection hn' with hn'; subst hn'
+          have hrt : (List.range rows.length)[t]? = some t := by simp [htl]
+          have hposC := filterMap_pos fC (List.range rows.length) t t (renderNode m) hrt hfc
+          have hfr' : fR t = some (mkNode t (toRRow ct) (outE.filter (·.src = t))) := by
+            rw [hfR]; simp [hct, hnt]
+          have hposR := filterMap_pos fR (List.range rows.length) t t _ hrt hfr'
+          have hleq : (((List.range rows.length).take t).filterMap fR).length =
+              (((List.range rows.length).take t).filterMap fC).length :=
+            filterMap_length_congr _ _ _ (fun x hx => hsome x (List.mem_of_mem_take hx))
+          rw [← hFn] at hposC
+          rw [← hrn2] at hposR
+          have hF := findNode_unique _ _ m.uid (renderNode m) hposC rfl hU
+          have hR := findNode_unique r _ (nodeId t) _ hposR (mkNode_uuid _ _ _) hRU
+          simp only [hdm, renderDest, destIdx, tgtDest, Option.map_some, Option.bind_some, hF, hR, hleq]
   -- node by node
-  have hFn : (renderOut out).nodes = s.nodes.toList.map renderNode := by simp [renderOut, hon]
   generalize renderOut out = F at dest_match hU hFn ⊢
   unfold absFlow
-  apply List.ext_getElem?
-  intro j
-  rw [List.getElem?_map, List.getElem?_map, hrn, refNodes_getElem? _ _ hkinds, hFn]
-  simp only [List.getElem?_map, Array.getElem?_toList]
-  by_cases hj : j < rows.length
-  · obtain ⟨n, c, hn, hcj, hsim⟩ := hrel.node j hj
-    simp only [hn, hcj, Option.map_some]
+  rw [hrn2, hFn]
+  apply filterMap_map_congr
+  intro j hj
+  obtain ⟨c, hcj⟩ : ∃ c, rows[j]? = some c := ⟨rows[j]'(List.mem_range.mp hj), by simp [List.mem_range.mp hj]⟩
+  by_cases hn : isNodeRow c = true
+  · obtain ⟨n, hn', hfc, hsim⟩ := hnodeC j c hcj hn
+    have hfr' : fR j = some (mkNode j (toRRow c) (outE.filter (·.src = j))) := by rw [hfR]; simp [hcj, hn]
+    rw [hfc, hfr']
+    simp only [Option.map_some]
     congr 1
-    have hfc := hfr c (List.mem_of_getElem? hcj)
     have hes : outE.filter (·.src = j) = outOf st j := by rw [hoe]; rfl
     rw [hes]
     have hsub : ∀ e ∈ outOf st j, e ∈ outE ∧ e.src = j := by
       intro e he
       have := List.mem_filter.mp he
       exact ⟨by rw [hoe]; exact this.1, by simpa using this.2⟩
-    cases hsim with
-    | plain hk hp =>
-      -- an action row: all its out-edges are unconditional
-      have hbl : ∀ e ∈ outOf st j, e.cond.blank = true := by
-        intro e he
-        obtain ⟨hm, hsrc⟩ := hsub e he
-        have := hgood.ok e hm
-        simp only [edgeOk, hsrc, hcj, Option.map_some, hk, Bool.or_eq_true] at this
-        rcases this with h1 | h1
-        · exact h1
-        · cases h1
-      have hact : (toRRow c).act = c.row.action := by
-        simp only [rowOk, Bool.or_eq_true] at hfc
-        rcases hfc with h1 | h1
-        · simp only [plainActionRow, Bool.and_eq_true, decide_eq_true_eq] at h1
-          exact h1.2.symm
-        · simp only [switchRow, Bool.and_eq_true] at h1
-          have := switch_type h1.1.1.1
-          rcases kindOf_switch this with h2 | h2 | h2 <;> rw [hk] at h2 <;> cases h2
-      rw [mkNode_plain j (toRRow c) (outOf st j) hk hbl, absNode_plain_ref,
-        absNode_plain_cmp _ _ n c.row.action hp.router hp.acts, hact]
-      congr 2
-      rw [dest_match _ _ hp.dest]
-      cases (outOf st j).getLast? <;> rfl
-    | sw rr hk hp =>
-      have hact : (toRRow c).act = none := by
-        simp only [rowOk, Bool.or_eq_true] at hfc
-        rcases hfc with h1 | h1
-        · simp only [plainActionRow, Bool.and_eq_true, Bool.not_eq_true'] at h1
-          have := kindOf_action h1.1.1.1
-          rcases hk with h2 | h2 | h2 <;> rw [this] at h2 <;> cases h2
-        · simp only [switchRow, Bool.and_eq_true, Option.isNone_iff_eq_none] at h1
-          exact h1.2
-      -- identifiers of the compiled router are pairwise different
-      have hfn := hI.nodup j n hn
-      have hrids : rr.ids.Nodup := by
-        unfold NodeM.fids NodeM.innerIds NodeM.tailIds at hfn
-        rw [hp.router] at hfn
-        exact (List.nodup_append.mp (List.nodup_append.mp hfn).2.1).2.1
-      have hex : (rr.allCats.map (·.exitUid)).Nodup := by
-        unfold SwitchR.ids at hrids; exact (List.nodup_append.mp hrids).1
-      have hcu : (rr.allCats.map (·.uid)).Nodup := by
-        unfold SwitchR.ids at hrids
-        exact (List.nodup_append.mp (List.nodup_append.mp hrids).2.1).1
-      rw [mkNode_switch j (toRRow c) (outOf st j) hk hact, absNode_mkSwitch,
-        absNode_sw rnf _ n rr hp.router hp.acts hcu hex hp.casecat hp.nrSome]
-      -- compare field by field
-      have htests : (rr.cases.map renderCase).map (fun k => (k.type, testArgs k)) =
-          (refTests (toRRow c).kind (outOf st j)).map (fun t =>
-            (t.1, if t.1 = "has_group".toList then t.2.1.drop 1 else t.2.1)) := by
-        have e1 : (rr.cases.map renderCase).map (fun k => (k.type, testArgs k)) =
-            (rr.cases.map (fun k => (k.type, k.args.map (·.getD [])))).map
-              (fun (p : Str × List Str) => (p.1, if p.1 = "has_group".toList then p.2.drop 1 else p.2)) := by
-          rw [List.map_map, List.map_map]
-          exact List.map_congr_left (fun k _ => rfl)
-        rw [e1, hp.cases, List.map_map]
-        unfold refTests
-        rw [List.map_map]
-        exact List.map_congr_left (fun e _ => rfl)
-      have hwait : (renderWait rr).map (fun o => o.map (·.1)) =
-          (refWait (toRRow c) (outOf st j)).map (fun o => o.map (·.1)) := by
-        unfold refWait renderWait
-        rcases hk with h1 | h1
-        · -- a wait row
-          have ht := type_of_wait h1
-          have hw : rr.wait = some (timeoutOf c.row) := by rw [hp.wait]; unfold waitOf; rw [if_pos ht]
-          have hk' : (toRRow c).kind = .wait := h1
-          have hto : (toRRow c).timeout = timeoutOf c.row := rfl
-          rw [if_pos hk', hto, hw]
-          cases hto2 : timeoutOf c.row with
-          | zero => simp
-          | succ m =>
-            have : rr.noResp.isSome = true := hp.nrSome.mpr ⟨m, by rw [hw, hto2]⟩
-            cases hnn : rr.noResp with
-            | none => rw [hnn] at this; cases this
-            | some nr => simp
-        · have ht := type_not_wait h1
-          have hw : rr.wait = none := by rw [hp.wait]; unfold waitOf; rw [if_neg ht]
-          have hk' : ¬ ((toRRow c).kind = .wait) := by
-            show ¬ (kindOf c.row.type = .wait)
-            rcases h1 with h1 | h1 <;> rw [h1] <;> decide
-          rw [if_neg hk', hw]
-          rfl
-      have hdests : rr.allCats.map (fun cat => destIdx F (renderDest cat.dest)) =
-          ((refTests (toRRow c).kind (outOf st j)).map (fun t => destIdx r t.2.2)) ++
-            [destIdx r (lastTgt ((outOf st j).filter (·.cond.blank)) (fun _ => true))] ++
-            (match refWait (toRRow c) (outOf st j) with
-             | some (some (_, td)) => [destIdx r td]
-             | _ => []) := by
-        simp only [SwitchR.allCats, List.map_append, List.map_cons, List.map_nil]
-        congr 1
-        · congr 1
-          · -- the categories of the tests
-            unfold refTests
-            rw [List.map_map]
-            refine forall2_map_eq hp.catd ?_
-            intro cat e hd
-            exact dest_match _ _ hd
-          · -- the default category
-            rw [dest_match _ _ hp.dflt, lastTgt_eq, List.filter_true]
-        · -- the timeout category
-          unfold refWait
-          rcases hk with h1 | h1
-          · have ht := type_of_wait h1
-            have hw : rr.wait = some (timeoutOf c.row) := by rw [hp.wait]; unfold waitOf; rw [if_pos ht]
-            have hk' : (toRRow c).kind = .wait := h1
-            have hto : (toRRow c).timeout = timeoutOf c.row := rfl
-            rw [if_pos hk', hto]
-            cases hto2 : timeoutOf c.row with
-            | zero =>
-              have : rr.noResp = none := by
-                cases hnn : rr.noResp with
-                | none => rfl
-                | some nr =>
-                  obtain ⟨m, hm⟩ := hp.nrSome.mp (by simp [hnn])
-                  rw [hw, hto2] at hm; cases hm
-              simp [this]
-            | succ m =>
-              have : rr.noResp.isSome = true := hp.nrSome.mpr ⟨m, by rw [hw, hto2]⟩
-              cases hnn : rr.noResp with
-              | none => rw [hnn] at this; cases this
-              | some nr =>
-                simp only [Option.toList, List.map_cons, List.map_nil, Nat.succ_ne_zero, if_false]
-                rw [dest_match _ _ (hp.nr nr hnn), lastTgt_eq]
-          · have ht := type_not_wait h1
-            have hw : rr.wait = none := by rw [hp.wait]; unfold waitOf; rw [if_neg ht]
-            have hk' : ¬ ((toRRow c).kind = .wait) := by
-              show ¬ (kindOf c.row.type = .wait)
-              rcases h1 with h1 | h1 <;> rw [h1] <;> decide
-            rw [if_neg hk']
-            have : rr.noResp = none := by
-              cases hnn : rr.noResp with
-              | none => rfl
-              | some nr =>
-                obtain ⟨m, hm⟩ := hp.nrSome.mp (by simp [hnn])
-                rw [hw] at hm; cases hm
-            simp [this]
-      have hop : rr.operand = (toRRow c).operand := hp.operand
-      have hrn' : rr.resultName = some (toRRow c).saveName := hp.rname
-      rw [htests, hwait, hdests, hop, hrn']
-      rfl
-  · have h1 : (rows.map toRRow)[j]? = none := by simp; omega
-    have h2 : s.nodes[j]? = none := by
-      rw [Array.getElem?_eq_none_iff]; rw [hrel.nsize]; omega
-    simp [h1, h2]; omega
+    have hnok : nodeRowOk c = true := by
+      have := hfr c (List.mem_of_getElem? hcj)
+      simp only [rowOk, Bool.or_eq_true] at this
+      rcases this with (h1 | h1) | h1
+      · exact h1
+      · exfalso
+        simp only [exitRow, Bool.and_eq_true, Bool.or_eq_true, decide_eq_true_eq] at h1
+        unfold isNodeRow at hn
+        rcases h1.1 with h2 | h2 <;> rw [h2] at hn
+        · rw [kindOf_hard] at hn; cases hn
+        · rw [kindOf_loose] at hn; cases hn
+      · exfalso
+        simp only [gotoRow, Bool.and_eq_true, decide_eq_true_eq] at h1
+        unfold isNodeRow at hn
+        rw [h1.1, kindOf_goto] at hn; cases hn
+    refine node_abs_eq rnf F r M s.nodes j n c (outOf st j) hsim hnok rows hcj ?_ (hI.nodup _ n hn') ?_
+    · intro e he
+      obtain ⟨hm, hsrc⟩ := hsub e he
+      exact ⟨hgood.ok e hm, hsrc⟩
+    · intro d t hv hd
+      exact dest_match d t (fun k hk => by
+        obtain ⟨e, he, het⟩ := hv k hk
+        exact ⟨e, (hsub e he).1, het⟩) hd
+  · have hn' : isNodeRow c = false := by simpa using hn
+    rw [hfR, hfC]; simp [hcj, hn', nodeIdx]
 
 end Rpft.CoreSheet
